@@ -165,8 +165,14 @@ func (x *fnExec) execInstr(p *Path, ins ssa.Instruction) []Outcome {
 		id := e.alloc(st, &MapObj{})
 		return one(st, &MapV{Obj: id})
 	case *ssa.MakeChan:
-		id := e.alloc(st, &StructV{})
+		sz, okc := x.eval(p, in.Size).(*Term)
+		if !okc || !sz.IsConst() {
+			panic(e.abort("make(chan) with a symbolic capacity"))
+		}
+		id := e.alloc(st, &ChanObj{Cap: int(sz.Val)})
 		return one(st, &ChanV{Obj: id})
+	case *ssa.Send:
+		return e.chanSend(st, x.eval(p, in.Chan).(*ChanV), x.eval(p, in.X))
 	case *ssa.MakeSlice:
 		return e.makeSlice(st, in.Type(), x.eval(p, in.Len).(*Term), x.eval(p, in.Cap).(*Term))
 	case *ssa.Extract:
@@ -290,7 +296,13 @@ func (e *Engine) unop(st *State, in *ssa.UnOp, v Value) []Outcome {
 		}
 		return one(st, e.load(st, ptr))
 	case token.ARROW:
-		panic(e.abort("channel receive not supported"))
+		var zero Value
+		if in.CommaOk {
+			zero = e.zero(in.Type().(*types.Tuple).At(0).Type())
+		} else {
+			zero = e.zero(in.Type())
+		}
+		return e.chanRecv(st, v.(*ChanV), zero, in.CommaOk)
 	}
 	panic(e.abort("unsupported unary op %s", in.Op))
 }
